@@ -6,6 +6,7 @@ import (
 	"os"
 	"path/filepath"
 	"sort"
+	"strconv"
 	"strings"
 	"time"
 
@@ -323,6 +324,23 @@ func (p *c08) outputsN(scen *gen.Scenario, seed int64, rot int, res *fw.Result, 
 				add(fmt.Sprintf("query[%d]", i), pq.String())
 				add(fmt.Sprintf("query_inspect[%d]", i), contactql.Inspect(pq))
 			}
+		}
+	}
+	// queries over what a group definition does not use: group membership, flow, history, several URN schemes, every field at once
+	gname := "Testers"
+	for _, g := range assetList(scen.Assets, "groups") {
+		if _, ok := g["query"]; !ok {
+			gname = fmt.Sprint(g["name"])
+			break
+		}
+	}
+	for i, q := range []string{`group = ` + strconv.Quote(gname), `group != ` + strconv.Quote(gname) + ` AND age > 1`, `group = "Nobody"`, `tel ~ 1206 OR twitter = "bobby" OR facebook != ""`,
+		`age > 1 AND gender = "m" AND joined > 2018-01-01 AND nick ~ "bo" AND state = "Kigali City" AND district != "" AND ward = ""`, `bob 1206 OR jim`, `name ~ "bob" AND (group = ` + strconv.Quote(gname) + ` OR language = "eng")`} {
+		if pq, err := contactql.ParseQuery(env, q, rn.SA); err == nil {
+			add(fmt.Sprintf("query_extra[%d]", i), pq.String())
+			add(fmt.Sprintf("query_extra_inspect[%d]", i), contactql.Inspect(pq))
+		} else {
+			add(fmt.Sprintf("query_extra[%d]", i), "error: "+err.Error())
 		}
 	}
 	// template results on the final context
